@@ -464,3 +464,125 @@ def consumers(mir, body, local, depth=3):
                             for q in range(2, cb.d['argc'] + 1):
                                 out |= consumers(mir, cb, q, depth - 1)
     return out
+
+
+def private_helper_of(mir, b, allowed, depth=3):
+    """is body b (or the function enclosing the closure b) reachable only from the `allowed` bodies -- i.e. a private helper
+    extracted from them?  (all callers, transitively up to `depth`, end in the allowed set)"""
+    idx = mir.callers_index()
+    seen = set()
+    todo = [b.nid.split('::{closure')[0]]
+    for _ in range(depth + 1):
+        nxt = []
+        for n in todo:
+            if n in seen:
+                continue
+            seen.add(n)
+            if n in allowed:
+                continue
+            callers = {c[0].nid.split('::{closure')[0] for c in idx.get(n, [])}
+            if not callers:
+                return False
+            nxt += [c for c in callers if c not in allowed]
+        if not nxt:
+            return True
+        todo = nxt
+    return False
+
+
+def _place_key(p):
+    parts = ['_%d' % p['l']]
+    for e in p['p']:
+        if e == '*':
+            parts.append('*')
+        elif isinstance(e, dict) and 'dc' in e:
+            parts.append('as:%s' % e['dc'])
+        elif isinstance(e, dict) and 'f' in e:
+            parts.append('f%d' % e['f'])
+        else:
+            parts.append('?')
+    return '/'.join(parts)
+
+
+def arm_infeasible(body, bb):
+    """Is block `bb` (typically the `unreachable!()` arm of a match) entered only through the edge `discr(P) == v` of a
+    switch S although every path from a definition of P to S passes another switch on discr(P) through an edge that
+    excludes v?  (e.g. `while let V(..) = p { p = next }` followed by `match p { .., V(..) => unreachable!() }`.)
+    Sound for the purpose: P is a local or a dereference of a reference local; any assignment to that local restarts
+    the knowledge."""
+    preds = body.preds()
+    cur = bb
+    S = None
+    v = None
+    for _ in range(4):     # the arm may start with a few straight-line blocks
+        ps = [p for p in preds[cur] if not body.blocks[p].get('cleanup')]
+        if len(ps) != 1:
+            return False
+        pterm = body.term(ps[0])
+        if pterm['k'] == 'switch':
+            S = ps[0]
+            vals = [int(val) for val, x in pterm['targets'] if x == cur]
+            if len(vals) != 1 or pterm['otherwise'] == cur:
+                return False
+            v = vals[0]
+            break
+        if pterm['k'] != 'goto':
+            return False
+        cur = ps[0]
+    if S is None:
+        return False
+
+    def discr_place(blk):
+        tm = body.term(blk)
+        if tm['k'] != 'switch':
+            return None
+        dl = op_local(tm['discr'])
+        for kind, dbb, idx, x in body.defs().get(dl, []) if dl is not None else []:
+            if kind == 'stmt' and x['rv']['k'] == 'discr' and dbb == blk:
+                return x['rv']['place']
+        return None
+    P = discr_place(S)
+    if P is None:
+        return False
+    key = _place_key(P)
+    base = P['l']
+    removed = set()
+    for blk in range(len(body.blocks)):
+        if blk == S:
+            continue
+        q = discr_place(blk)
+        if q is None or _place_key(q) != key:
+            continue
+        tm = body.term(blk)
+        listed = {int(val): x for val, x in tm['targets']}
+        if v in listed:
+            for val, x in listed.items():
+                if val != v:
+                    removed.add((blk, x))
+            removed.add((blk, tm['otherwise']))
+        else:
+            for val, x in listed.items():
+                removed.add((blk, x))
+    if not removed:
+        return False
+    starts = {0}
+    for kind, dbb, idx, x in body.defs().get(base, []):
+        starts.add(dbb)
+    # a definition inside a block: what follows it in that block is straight-line, so start from the block itself but do not
+    # count the block's own switch as "passed" if the definition comes after the discriminant read (conservative: treat the
+    # defining block as a start)
+    seen = set()
+    todo = list(starts)
+    while todo:
+        c = todo.pop()
+        if c in seen:
+            continue
+        seen.add(c)
+        if c == S and c not in starts:
+            return False
+        for nx in body.succs()[c]:
+            if (c, nx) not in removed:
+                if nx == S:
+                    return False
+                todo.append(nx)
+    return True
